@@ -44,7 +44,7 @@ RULE = ("the real RWLock runs on real threads whose mutex class is replaced (ins
         "least one context switch at a yield point")
 ASSUMPTIONS = ["threading.Lock semantics modelled by the virtual lock (mutual exclusion, release by any thread, no reentrancy)",
                "schedules beyond the delay bound / the sampled random ones are not covered", "CPython threading primitives used by the scheduler itself"]
-REQUIRED = {"quick": ["schedule.systematic", "schedule.random", "schedule.pct", "share_probe", "quiescence", "free_running",
+REQUIRED = {"quick": ["independence_probe", "schedule.two_locks", "schedule.systematic", "schedule.random", "schedule.pct", "share_probe", "quiescence", "free_running",
                       "occupancy.RR", "occupancy.W", "occupancy.R", "blocked_events", "max_readers_ge2"]}
 WATCHDOG_S = {"quick": 600, "thorough": 3000}
 
@@ -63,6 +63,8 @@ def shards(tier, seed):
         out.append(("random_%d" % i, dict(kind="random", count=400 if q else 8000, lines=(i % 2 == 1))))
     for i in range(2 if q else 8):
         out.append(("pct_%d" % i, dict(kind="pct", count=300 if q else 6000)))
+    for i in range(2 if q else 8):
+        out.append(("two_locks_%d" % i, dict(kind="two_locks", count=250 if q else 5000)))
     out.append(("share", dict(kind="share", count=100 if q else 2000)))
     out.append(("free", dict(kind="free", rounds=300 if q else 3000)))
     return out
@@ -102,8 +104,28 @@ def _restore():
     pass
 
 
-def one_run(r, w, rounds, decider, hooks=None, trace=False):
-    """One schedule of r readers and w writers.  Returns (sched, mon, lock)."""
+class _Multi(object):
+    """Several Mon / RWLock pairs judged together (two independent locks in one process)."""
+
+    def __init__(self, mons, locks):
+        self.mons, self.locks = mons, locks
+
+    @property
+    def bad(self):
+        return next((m.bad for m in self.mons if m.bad), None)
+
+    @property
+    def states(self):
+        return set().union(*[m.states for m in self.mons])
+
+    @property
+    def max_readers(self):
+        return max(m.max_readers for m in self.mons)
+
+
+def one_run(r, w, rounds, decider, hooks=None, trace=False, second_lock=None):
+    """One schedule of r readers and w writers.  Returns (sched, mon, lock).
+    second_lock = (r2, w2): that many readers / writers work on a SECOND, unrelated RWLock object in the same schedule."""
     _install_shim()
     S.VLock.counter = 0
     mon = Mon()
@@ -112,6 +134,8 @@ def one_run(r, w, rounds, decider, hooks=None, trace=False):
         s.trace = []
     S.VLock.sched = s
     lock = RW.RWLock()
+    if second_lock:
+        lock2, mon2 = RW.RWLock(), Mon()
 
     def reader(name):
         def f():
@@ -138,24 +162,47 @@ def one_run(r, w, rounds, decider, hooks=None, trace=False):
             s.spawn(reader("R%d" % i), "R%d" % i)
         if i < w:
             s.spawn(writer("W%d" % i), "W%d" % i)
+    if second_lock:
+        def mk(kind, name, lk, mn):
+            def f():
+                for _ in range(rounds):
+                    (lk.reader_acquire if kind == "R" else lk.writer_acquire)()
+                    mn.enter(kind, name)
+                    s.yield_point(("cs", name))
+                    mn.leave(kind, name)
+                    (lk.reader_release if kind == "R" else lk.writer_release)()
+            return f
+        for i in range(second_lock[0]):
+            s.spawn(mk("R", "B.R%d" % i, lock2, mon2), "B.R%d" % i)
+        for i in range(second_lock[1]):
+            s.spawn(mk("W", "B.W%d" % i, lock2, mon2), "B.W%d" % i)
     if hooks is not None:
         hooks.sched = s
     ok = s.run(timeout=10.0)
     if hooks is not None:
         hooks.sched = None
     S.VLock.sched = None
+    if second_lock:
+        return s, _Multi([mon, mon2], [lock, lock2]), _Multi([mon, mon2], [lock, lock2]), ok
     return s, mon, lock, ok
 
 
 def quiescent(lock):
     """All mutexes free, counters zero, fresh rounds succeed (probe mode)."""
-    d = lock.__dict__
+    if isinstance(lock, _Multi):
+        return [p for lk in lock.locks for p in quiescent(lk)]
     probs = []
     for nm in ("_RWLock__no_readers", "_RWLock__no_writers", "_RWLock__readers_queue"):
-        if d[nm].locked():
+        lk = getattr(lock, nm, None)          # getattr: also finds it if it is (wrongly or not) a class attribute
+        if lk is not None and lk.locked():
             probs.append("%s still held" % nm.split("__")[1])
     for nm in ("_RWLock__read_switch", "_RWLock__write_switch"):
-        sw = d[nm].__dict__
+        swo = getattr(lock, nm, None)
+        if swo is None:
+            continue
+        sw = {k: getattr(swo, k, None) for k in ("_LightSwitch__counter", "_LightSwitch__mutex")}
+        if sw["_LightSwitch__mutex"] is None:
+            continue
         if sw["_LightSwitch__counter"] != 0:
             probs.append("%s counter = %r" % (nm.split("__")[1], sw["_LightSwitch__counter"]))
         if sw["_LightSwitch__mutex"].locked():
@@ -279,6 +326,14 @@ def run(ctx, name, kind, **kw):
             finally:
                 if hooks:
                     hooks.uninstall()
+        elif kind == "two_locks":
+            # two unrelated RWLock objects in one process: what happens on one must never block or corrupt the other
+            for i in range(kw["count"]):
+                cfg = CONFIGS[rng.randrange(len(CONFIGS))]
+                second = rng.choice(((1, 0), (2, 0), (1, 1), (0, 1), (2, 1)))
+                dec = S.random_decider(rng, rng.choice((0.1, 0.3, 0.6))) if i % 3 else S.pct_decider(rng, cfg[0] + cfg[1] + sum(second), 3, 120)
+                s, mon, lock, ok = one_run(cfg[0], cfg[1], rng.choice((1, 2)), dec, None, second_lock=second)
+                judge(ctx, "schedule.two_locks", cfg, s, mon, lock, ok, seen, dict(second_lock=list(second)))
         elif kind == "share":
             # no writer exists; reader A parks inside; every other reader must get in while A is inside
             for i in range(kw["count"]):
@@ -319,6 +374,53 @@ def run(ctx, name, kind, **kw):
                 else:
                     probs = quiescent(lock)
                     ctx.check(not probs, "not_quiescent_after_release", "share probe: %s" % probs, dict(k=k, decisions=s.decisions))
+            # independence probe: lock A is write-held (writer parked inside) with a reader queued behind it; lock B has no holder at all,
+            # so a reader (and then a writer) of B must get in WITHOUT A's writer releasing first
+            for i in range(kw["count"] // 2):
+                S.VLock.counter = 0
+                s = S.Sched(S.random_decider(rng, rng.choice((0.2, 0.5, 0.9))), max_steps=5000)
+                S.VLock.sched = s
+                A, B = RW.RWLock(), RW.RWLock()
+                st = {"b_done": 0, "fail": None}
+
+                def WA():
+                    A.writer_acquire()
+                    spins = 0
+                    while st["b_done"] < 2:
+                        others = s.ts[1:]
+                        if all(t.state in ("blocked", "done") for t in others) and any(t.state == "blocked" and t.name.startswith("B") for t in others):
+                            st["fail"] = "threads on lock B are blocked although nobody holds B (A is write-held): %r" % {t.name: getattr(t.blocked_on, "name", None) for t in others if t.state == "blocked"}
+                            break
+                        spins += 1
+                        s.yield_point(("park", spins))
+                    A.writer_release()
+
+                def RA():
+                    A.reader_acquire()
+                    A.reader_release()
+
+                def BR():
+                    B.reader_acquire()
+                    s.yield_point(("cs",))
+                    B.reader_release()
+                    st["b_done"] += 1
+
+                def BW():
+                    B.writer_acquire()
+                    B.writer_release()
+                    st["b_done"] += 1
+                s.spawn(WA, "A.W")
+                s.spawn(RA, "A.R")
+                s.spawn(BR, "B.R")
+                s.spawn(BW, "B.W")
+                ok = s.run(timeout=10.0)
+                S.VLock.sched = None
+                ctx.case("independence_probe", key=hashlib.sha1(repr(s.decisions).encode()).hexdigest()[:12])
+                if st["fail"] or s.deadlock or not ok:
+                    ctx.violation("unrelated_lock_blocked", "two RWLock objects: %s" % (st["fail"] or s.deadlock or s.aborted), dict(decisions=s.decisions))
+                else:
+                    probs = quiescent(A) + quiescent(B)
+                    ctx.check(not probs, "not_quiescent_after_release", "independence probe: %s" % probs, dict(decisions=s.decisions))
         elif kind == "free":
             free_running(ctx, rng, kw["rounds"])
     finally:
